@@ -72,7 +72,20 @@ return self.theDraws
 """
     from ..pattern import find as _find
 
-    bg = _find(gd.node, GEN.replace('NAMEDEF', '_NAME = _V')) or _find(gd.node, GEN.replace('    NAMEDEF\n', '').replace('_NAME', '_V'))
+    # the second lookup nested in the first test, or the two tests in sequence (the second can only hold after the first did)
+    GEN2 = GEN.replace("""        _G = self.userRandomNumberGenerators.get(_T)
+        if _G is None:
+            ___
+            raise BiogemeError(__MSG)
+""", """        _G = self.userRandomNumberGenerators.get(_T)
+    if _G is None:
+        ___
+        raise BiogemeError(__MSG)
+""")
+    assert GEN2 != GEN
+    bg = None
+    for gen in (GEN, GEN2):
+        bg = bg or _find(gd.node, gen.replace('NAMEDEF', '_NAME = _V')) or _find(gd.node, gen.replace('    NAMEDEF\n', '').replace('_NAME', '_V'))
     ok = None
     why = 'shape not recognised - expected: one column per name of `names`, filled by the generator of the declared type of that name (native, else user, else error), variable axis moved last'
     if bg is not None:
